@@ -26,7 +26,10 @@ Definition name := N.
 
 Inductive skind := KFile | KFunction | KBlock | KClass.
 
-Record binding := mkB { bname : name; bconst : bool }.
+(* bmod: the entry was registered by `modify x = ..` (Ident::is_modify_alias): an alias of the captured
+   variable, not a declaration of a variable of the function it sits in *)
+Record binding := mkBind { bname : name; bconst : bool; bmod : bool }.
+Definition mkB (x : name) (c : bool) : binding := mkBind x c false.
 Record scope := mkS { kind : skind; vars : list binding }.
 Definition scopes := list scope.            (* head = innermost (the Vec's last element) *)
 
@@ -45,6 +48,20 @@ Definition add (ss : scopes) (x : name) (c : bool) : scopes :=
   match ss with
   | [] => []
   | s :: r => mkS (kind s) (mkB x c :: vars s) :: r
+  end.
+
+(* the entry of a `modify x = ..` statement (never const: `const modify` is refused) *)
+Definition add_mod (ss : scopes) (x : name) : scopes :=
+  match ss with
+  | [] => []
+  | s :: r => mkS (kind s) (mkBind x false true :: vars s) :: r
+  end.
+
+(* Scope::contains filtered by !is_modify_alias: the DECLARATION of x in this scope, if any *)
+Fixpoint contains_decl (vs : list binding) (x : name) : option bool :=
+  match vs with
+  | [] => None
+  | b :: r => if N.eqb (bname b) x then (if bmod b then None else Some (bconst b)) else contains_decl r x
   end.
 
 Fixpoint add_all (ss : scopes) (xs : list name) (c : bool) : scopes :=
@@ -84,6 +101,19 @@ Fixpoint lookup_skip_cb (ss : scopes) (x : name) (skip : nat) (cb : bool) : opti
                      | None => lookup_skip_cb r x O (cb || is_function s)
                      end
               | S k => lookup_skip_cb r x k (cb || is_function s)
+              end
+  end.
+
+(* AssocFileData::get_declaration_flags_from_name_skip_n: the same walk over declarations only *)
+Fixpoint lookup_decl_cb (ss : scopes) (x : name) (skip : nat) (cb : bool) : option (bool * bool) :=
+  match ss with
+  | [] => None
+  | s :: r => match skip with
+              | O => match contains_decl (vars s) x with
+                     | Some c => Some (c, cb)
+                     | None => lookup_decl_cb r x O (cb || is_function s)
+                     end
+              | S k => lookup_decl_cb r x k (cb || is_function s)
               end
   end.
 
@@ -148,12 +178,15 @@ Record cfg := mkCfg {
   chk_unwrap : bool;      (* math_expr.rs: `?=` on a const name *)
   chk_counter : bool;     (* number_loop.rs: counter collides with a const *)
   chk_pathop : bool;      (* math_expr.rs: a[i] op= v / a.f op= v through a const root *)
-  chk_modify_cb : bool    (* assignment.rs can_modify_if_applicable: the target of `modify` must be a CAPTURED
+  chk_modify_cb : bool;   (* assignment.rs can_modify_if_applicable: the target of `modify` must be a CAPTURED
                              variable (is_callback), not a local of the current function that shadows it *)
+  mod_through : bool      (* .. and is looked up among DECLARATIONS: entries of earlier `modify` statements are
+                             passed over (fixes/modify-after-modify-regression.diff) *)
 }.
-Definition cfg_fixed := mkCfg true true true true.
-Definition cfg_head := mkCfg false false false false.        (* tree before fixes/const-*.diff *)
-Definition cfg_pre_modify := mkCfg true true true false.     (* tree before fixes/const-modify-through-shadow.diff *)
+Definition cfg_fixed := mkCfg true true true true true.
+Definition cfg_head := mkCfg false false false false false.        (* tree before fixes/const-*.diff *)
+Definition cfg_pre_modify := mkCfg true true true false false.     (* tree before const-modify-through-shadow *)
+Definition cfg_745 := mkCfg true true true true false.             (* /repo 745d438: a second modify is refused *)
 
 (* ---------------------------------------------------------------- the compiler's checks *)
 
@@ -169,7 +202,7 @@ Definition assign_checks (did : option bool) (c m : bool) (x : name) (ss' : scop
   let requires_check := is_some did || m in
   (* can_modify_if_applicable (an Err of the modify lookup is reported unconditionally) *)
   let can_modify :=
-    if m then match lookup_skip_cb ss' x 1 false with
+    if m then match (if mod_through g then lookup_decl_cb ss' x 1 false else lookup_skip_cb ss' x 1 false) with
               | None => None                            (* "does not exist in any parent scope" *)
               | Some (k, cb) =>
                   if chk_modify_cb g && negb cb then None   (* "is a variable of this function, not one captured .." *)
@@ -222,7 +255,7 @@ with check_stmt (ss : scopes) (s : stmt) : option scopes :=
       if c && m then None else                               (* AssignmentFlag::validate *)
       let did := if m then lookup_all ss x else mapped_in_function ss x in
       if check_expr ss rhs then
-        let ss' := add ss x c in
+        let ss' := if m then add_mod ss x else add ss x c in
         if assign_checks did c m x ss' then Some ss' else None
       else None
   | SUnpack c xs rhs =>
